@@ -120,7 +120,7 @@ def model_depth2() -> list[str]:
         "Tuple[A] | Tuple[A, B]", "Co[Literal[1] | Literal[2]]", "Tuple[Literal[1], Literal[b'a']]",
         "Callable[[int], Literal[1]]", "Callable[[Literal[1]], int]", "Co[Tuple[A, B]]", "Cn[Tuple[A, B]]",
         "Co[Tuple[B, ...]]", "Sequence[Sequence[B]]", "Type[Co[B]]", "Type[Inv[A]]",
-        # wrappers around the F25 cell (meet of contravariant generics over Type[...] / Callable) and, with NT, F23
+        # wrappers around the F-C08b cell (meet of contravariant generics over Type[...] / Callable) and, with NT, F23
         "Callable[[Cn[Callable[[], A]]], A]", "Callable[[Cn[Type[A]]], A]", "Tuple[Cn[Callable[[], A]]]",
         "Tuple[Cn[Type[A]]]", "Co[Cn[Type[A]]]", "Co[Cn[Callable[[], A]]]", "Co[Tuple[B, A]]", "Tuple[Tuple[B, A], A]",
     ]
